@@ -27,64 +27,88 @@ theorem St.ext' {a b : St} (hN : a.N = b.N) (hh : a.head = b.head) (ht : a.tail 
 @[simp] theorem img_tail (s : St) : (img s).tail = wrap s.tail := rfl
 @[simp] theorem img_locked (s : St) : (img s).locked = s.locked := rfl
 @[simp] theorem img_buf (s : St) : (img s).buf = s.buf := rfl
-@[simp] theorem img_thr (s : St) : (img s).thr = s.thr := rfl
+@[simp] theorem img_thr (s : St) (u : Nat) : (img s).thr u = imgLoc (s.thr u) := rfl
 @[simp] theorem img_acc (s : St) : (img s).accepted = s.accepted := rfl
 @[simp] theorem img_del (s : St) : (img s).delivered = s.delivered.map fun x => (x.1, wrap x.2.1, x.2.2) := rfl
 
-macro "close_st" : tactic => `(tactic| (first | rfl | (congr 1; apply St.ext' <;> simp [img, setThr, setBuf, wadd_wrap_one])))
+macro "close_thr" t:term:max : tactic => `(tactic| (intro u; by_cases hu : u = $t <;> simp [hu, imgLoc, setThr, setBuf]))
+macro "close_st" t:term:max : tactic => `(tactic| (first | rfl | (congr 1; apply St.ext' <;> simp [setThr, setBuf, wadd_wrap_one] <;> (try close_thr $t))))
 
 theorem sim_step (s : St) (t : Nat) (h : Inv s) (hN : M32 % s.N = 0) (hNs : s.N ≤ 2147483647) :
     step32 (img s) t = some (img (step s t)) := by
   have := h.ht; have := h.cap
   have e2 : wsub (wrap s.tail) (wrap s.head) = s.tail - s.head := wsub_wrap s.tail s.head (by omega) (by omega)
   cases hl : s.thr t with
-  | idle => simp only [step32, step, img_thr, hl]
-  | done r => simp only [step32, step, img_thr, hl]
-  | pLock v => cases hk : s.locked <;> simp only [step32, step, img_thr, hl, img_locked, hk, ↓reduceIte, Bool.false_eq_true] <;> close_st
-  | pSpin v => cases hk : s.locked <;> simp only [step32, step, img_thr, hl, img_locked, hk, ↓reduceIte, Bool.false_eq_true] <;> try close_st
+  | idle => simp only [step32, step, img_thr, hl, imgLoc]
+  | done r => simp only [step32, step, img_thr, hl, imgLoc]
+  | pLock v => cases hk : s.locked <;> simp only [step32, step, img_thr, hl, imgLoc, img_locked, hk, ↓reduceIte, Bool.false_eq_true] <;> close_st t
+  | pSpin v => cases hk : s.locked <;> simp only [step32, step, img_thr, hl, imgLoc, img_locked, hk, ↓reduceIte, Bool.false_eq_true] <;> try close_st t
   | pCheck v =>
-    simp only [step32, step, img_thr, hl, fsAdmit32, len32, img_head, img_tail, img_N, e2]
+    simp only [step32, step, img_thr, hl, imgLoc, fsAdmit32, len32, img_head, img_tail, img_N, e2]
     by_cases hc : s.tail - s.head < s.N
     · have : cadd (s.tail - s.head) 1 = some (s.tail - s.head + 1) := by unfold cadd; rw [if_pos (by omega)]
       simp only [hc, decide_true, ↓reduceIte, this]
-      try close_st
+      try close_st t
     · simp only [hc, decide_false, Bool.false_eq_true, ↓reduceIte]
-      try close_st
-  | pFullUnlocked => simp only [step32, step, img_thr, hl]; try close_st
+      try close_st t
+  | pFullUnlocked => simp only [step32, step, img_thr, hl, imgLoc]; try close_st t
   | pWrite v len =>
-    simp only [step32, step, img_thr, hl, index32, img_tail, img_N, mod_wrap s.tail s.N hN]
-    try close_st
-  | pPublish v len => simp only [step32, step, img_thr, hl, img_tail, img_acc]; try close_st
-  | pUnlocked len => simp only [step32, step, img_thr, hl]; try close_st
-  | cLock => cases hk : s.locked <;> simp only [step32, step, img_thr, hl, img_locked, hk, ↓reduceIte, Bool.false_eq_true] <;> try close_st
-  | cSpin => cases hk : s.locked <;> simp only [step32, step, img_thr, hl, img_locked, hk, ↓reduceIte, Bool.false_eq_true] <;> try close_st
+    simp only [step32, step, img_thr, hl, imgLoc, index32, img_tail, img_N, mod_wrap s.tail s.N hN]
+    try close_st t
+  | pPublish v len => simp only [step32, step, img_thr, hl, imgLoc, img_tail, img_acc]; try close_st t
+  | pUnlocked len => simp only [step32, step, img_thr, hl, imgLoc]; try close_st t
+  | cLock => cases hk : s.locked <;> simp only [step32, step, img_thr, hl, imgLoc, img_locked, hk, ↓reduceIte, Bool.false_eq_true] <;> try close_st t
+  | cSpin => cases hk : s.locked <;> simp only [step32, step, img_thr, hl, imgLoc, img_locked, hk, ↓reduceIte, Bool.false_eq_true] <;> try close_st t
+  | cLenT => simp only [step32, step, img_thr, hl, imgLoc]; try close_st t
   | cLen =>
-    simp only [step32, step, img_thr, hl, len32, img_head, img_tail, e2]
+    simp only [step32, step, img_thr, hl, imgLoc, len32, img_head, img_tail, e2]
     by_cases hc : s.tail - s.head > 0
     · have : posI32 (s.tail - s.head) = true := by rw [posI32_iff]; omega
       simp only [hc, this, ↓reduceIte]
-      try close_st
+      try close_st t
     · have : posI32 (s.tail - s.head) = false := by
         cases hp : posI32 (s.tail - s.head) with
         | false => rfl
         | true => rw [posI32_iff] at hp; omega
       simp only [hc, this, ↓reduceIte, Bool.false_eq_true]
-      try close_st
-  | cEmptyUnlocked => simp only [step32, step, img_thr, hl]; try close_st
+      try close_st t
+  | cEmptyUnlocked => simp only [step32, step, img_thr, hl, imgLoc]; try close_st t
   | cRead =>
-    simp only [step32, step, img_thr, hl, index32, img_head, img_N, img_buf, mod_wrap s.head s.N hN]
-    try close_st
-  | cRelease v => simp only [step32, step, img_thr, hl, img_head, img_del]; try close_st
-  | cUnlocked v => simp only [step32, step, img_thr, hl]; try close_st
-  | lLen => simp only [step32, step, img_thr, hl, len32, img_head, img_tail, e2]; try close_st
+    simp only [step32, step, img_thr, hl, imgLoc, index32, img_head, img_N, img_buf, mod_wrap s.head s.N hN]
+    try close_st t
+  | cRelease v => simp only [step32, step, img_thr, hl, imgLoc, img_head, img_del]; try close_st t
+  | cUnlocked v => simp only [step32, step, img_thr, hl, imgLoc]; try close_st t
+  | lLen => simp only [step32, step, img_thr, hl, imgLoc, img_tail]; try close_st t
+  | lLenH tl => simp only [step32, step, img_thr, hl, imgLoc, len32, img_head]; try close_st t
 
 theorem img_apply_nonstep (s : St) (a : Act) (ha : ∀ t, a ≠ .step t) : LockRing.apply (img s) a = img (LockRing.apply s a) := by
   cases a with
   | step t => exact absurd rfl (ha t)
-  | send t v => simp only [LockRing.apply, img_thr]; by_cases hi : s.thr t = .idle <;> simp only [hi, ↓reduceIte] <;> first | rfl | (apply St.ext' <;> simp [setThr])
-  | recv t => simp only [LockRing.apply, img_thr]; by_cases hi : s.thr t = .idle <;> simp only [hi, ↓reduceIte] <;> first | rfl | (apply St.ext' <;> simp [setThr])
-  | len t => simp only [LockRing.apply, img_thr]; by_cases hi : s.thr t = .idle <;> simp only [hi, ↓reduceIte] <;> first | rfl | (apply St.ext' <;> simp [setThr])
-  | ack t => simp only [LockRing.apply, img_thr]; split <;> first | rfl | (apply St.ext' <;> simp [setThr])
+  | send t v =>
+    have e : imgLoc (s.thr t) = .idle ↔ s.thr t = .idle := by cases s.thr t <;> simp [imgLoc]
+    simp only [LockRing.apply, img_thr]
+    by_cases hi : s.thr t = .idle
+    · have e0 : imgLoc Loc.idle = Loc.idle := rfl
+      simp only [hi, e0, ↓reduceIte]; apply St.ext' <;> simp [setThr, img] <;> (try close_thr t)
+    · have : ¬ imgLoc (s.thr t) = .idle := fun x => hi (e.mp x)
+      simp only [hi, this, ↓reduceIte]
+  | recv t =>
+    have e : imgLoc (s.thr t) = .idle ↔ s.thr t = .idle := by cases s.thr t <;> simp [imgLoc]
+    simp only [LockRing.apply, img_thr]
+    by_cases hi : s.thr t = .idle
+    · have e0 : imgLoc Loc.idle = Loc.idle := rfl
+      simp only [hi, e0, ↓reduceIte]; apply St.ext' <;> simp [setThr, img] <;> (try close_thr t)
+    · have : ¬ imgLoc (s.thr t) = .idle := fun x => hi (e.mp x)
+      simp only [hi, this, ↓reduceIte]
+  | len t =>
+    have e : imgLoc (s.thr t) = .idle ↔ s.thr t = .idle := by cases s.thr t <;> simp [imgLoc]
+    simp only [LockRing.apply, img_thr]
+    by_cases hi : s.thr t = .idle
+    · have e0 : imgLoc Loc.idle = Loc.idle := rfl
+      simp only [hi, e0, ↓reduceIte]; apply St.ext' <;> simp [setThr, img] <;> (try close_thr t)
+    · have : ¬ imgLoc (s.thr t) = .idle := fun x => hi (e.mp x)
+      simp only [hi, this, ↓reduceIte]
+  | ack t => simp only [LockRing.apply, img_thr]; cases hi : s.thr t <;> simp [imgLoc] <;> (apply St.ext' <;> simp [setThr]; try close_thr t)
 
 theorem sim_apply (s : St) (a : Act) (h : Inv s) (hN : M32 % s.N = 0) (hNs : s.N ≤ 2147483647) :
     apply32 (img s) a = some (img (LockRing.apply s a)) := by
